@@ -40,13 +40,43 @@ pub fn judge(h: &History, recs: &[StepRec]) -> Result<(), Failure> {
 /// coverage feedback steers the very bytes the stack parses; everything else selects among shapes.
 pub fn decode_history(data: &[u8]) -> History {
     let mut it = data.iter().copied();
-    let mut nx = move || it.next();
-    let b0 = nx().unwrap_or(0);
-    let b1 = nx().unwrap_or(0);
+    let b0 = it.next().unwrap_or(0);
+    let b1 = it.next().unwrap_or(0);
     let region = REGIONS[b0 as usize % REGIONS.len()];
-    let reg = Reg::from_name(region.name()).unwrap();
     let front = [FrontKind::Async, FrontKind::Nb, FrontKind::AsyncClassC][(b1 & 3) as usize % 3];
     let otaa = b1 & 4 != 0;
+    let cfg = DevCfg { region, join_bias: None, front, board: (14, 0) };
+    let activation = if otaa { Activation::Otaa } else { Activation::Abp { fcnt_up: 0, fcnt_down: None } };
+    decode_body(cfg, activation, b0 as u64 * 131 + b1 as u64, &mut it, false)
+}
+
+/// Second decoder (libFuzzer target `fuzz_hist`, cross-generator stage): two more header octets
+/// select the join-channel bias, the board constants and the counters an ABP session starts from.
+pub fn decode_history_v2(data: &[u8]) -> History {
+    let mut it = data.iter().copied();
+    let b0 = it.next().unwrap_or(0);
+    let b1 = it.next().unwrap_or(0);
+    let b2 = it.next().unwrap_or(0);
+    let b3 = it.next().unwrap_or(0);
+    let region = REGIONS[b0 as usize % REGIONS.len()];
+    let front = [FrontKind::Async, FrontKind::Nb, FrontKind::AsyncClassC][(b1 & 3) as usize % 3];
+    let otaa = b1 & 4 != 0;
+    let join_bias = if region.fixed() && b2 & 0x80 != 0 { Some((1 + (b2 & 7), 1 + ((b2 >> 3) & 7) as usize)) } else { None };
+    let cfg = DevCfg { region, join_bias, front, board: BOARDS[(b3 & 7) as usize % BOARDS.len()] };
+    let up = [0u32, 0, 0xFFFD, 0x7FFF_FFFE, 0xFFFF_FFF8, 0xFFFF_FFFD, 1 << 24, 0x0001_0000][((b3 >> 3) & 7) as usize];
+    let down = [None, None, Some(0xFFF0u32), Some(0x1_FFFE), Some(0xFFFF_BFF0)][((b3 >> 6) as usize + (b1 >> 6) as usize) % 5];
+    let activation = if otaa { Activation::Otaa } else { Activation::Abp { fcnt_up: up, fcnt_down: down } };
+    let mut h = decode_body(cfg, activation, ((b0 as u64 * 131 + b1 as u64) * 131 + b2 as u64) * 131 + b3 as u64, &mut it, true);
+    h.board.nb_async_tx = b1 & 8 != 0;
+    h
+}
+
+fn decode_body(cfg: DevCfg, activation: Activation, seed: u64, it: &mut dyn Iterator<Item = u8>, v2: bool) -> History {
+    let mut nx = move || it.next();
+    let region = cfg.region;
+    let reg = Reg::from_name(region.name()).unwrap();
+    let front = cfg.front;
+    let otaa = matches!(activation, Activation::Otaa);
     let class_c = front == FrontKind::AsyncClassC;
     let drs: Vec<u8> = (0..16u8).filter(|d| reg.is_uplink_dr(*d)).collect();
     let mut steps = vec![];
@@ -119,6 +149,7 @@ pub fn decode_history(data: &[u8]) -> History {
                 }
                 steps.push(Step::Send { port: if port == 0 { 0 } else { port.min(223) }, len, confirmed: op & 0x80 != 0, rx });
             }
+            4 if v2 && op & 0x20 != 0 => steps.push(Step::JoinSilence(1 + (nx().unwrap_or(0) as u16 % 90))),
             4 => {
                 let r = ja(&mut *nx);
                 steps.push(Step::Join(if op & 0x40 != 0 { RxPlan::rx2(r) } else { RxPlan::rx1(r) }));
@@ -137,7 +168,7 @@ pub fn decode_history(data: &[u8]) -> History {
     }
     steps.push(Step::Silence(2));
     steps.push(Step::Send { port: 2, len: 4, confirmed: true, rx: RxPlan::rx1(Recipe::auth_empty(1)) });
-    History { cfg: DevCfg { region, join_bias: None, front, board: (14, 0) }, activation: if otaa { Activation::Otaa } else { Activation::Abp { fcnt_up: 0, fcnt_down: None } }, board: Board::default(), rng_script: vec![], rng_seed: b0 as u64 * 131 + b1 as u64, steps }
+    History { cfg, activation, board: Board::default(), rng_script: vec![], rng_seed: seed, steps }
 }
 
 /// Entry point of the libFuzzer target.
